@@ -70,13 +70,27 @@ public:
     expression_t checkInitialiser(type_t, expression_t init) { return init; }
     void checkType(type_t, bool initialisable = false, bool inStruct = false) {}
     bool checkAssignmentExpression(expression_t) { bool b; return b; }
+#ifdef VERIF_REAL_C12
+    /* REAL definitions are included by the TU (lvalue_funcs.inc); recursion by contract:
+       g_a = isModifiableLValue, g_c = isLValue, g_d = isUniqueReference of the child */
+    bool isModifiableLValue(expression_t) const;
+    bool isLValue(expression_t) const;
+    bool isUniqueReference(expression_t expr) const;
+    bool isParameterCompatible(type_t param, expression_t arg);
+    bool checkParameterCompatible(type_t param, expression_t arg);
+    bool isModifiableLValue__contract(expression_t e) const { return !e.empty() && e.data->g_a; }
+    bool isLValue__contract(expression_t e) const { return !e.empty() && e.data->g_c; }
+    bool isUniqueReference__contract(expression_t e) const { return !e.empty() && e.data->g_d; }
+    static bool areEquivalent(type_t, type_t) { bool b; return b; }
+#else
     bool isUniqueReference(expression_t) const { bool b; return b; }
     bool checkParameterCompatible(type_t, expression_t) { bool b; if (!b) verif_err_count++; return b; }
+    bool isModifiableLValue(expression_t) const { bool b; return b; }
+#endif
     bool areEqCompatible(type_t, type_t) const { bool b; return b; }
     bool areAssignmentCompatible(type_t, type_t, bool init = false) const { bool b; return b; }
     bool areInlineIfCompatible(type_t, type_t, type_t) const { bool b; return b; }
     type_t getInlineIfCommonType(type_t, type_t) const { return type_t::verif_any_type(); }
-    bool isModifiableLValue(expression_t) const { bool b; return b; }
     bool checkExpression_clauses(expression_t expr);
 #include "gates_decl.inc"
 };
